@@ -249,7 +249,10 @@ package bkl
 //@   requires ((_ is VMap) obj)
 //@   ensures (= (isErr err) (outBad obj false))
 //@   ensures (=> (not (isErr err)) (= res (hideF obj)))                            [C11]
-//@   ensures (=> (escV obj) (and (not (isErr err)) (= res (dropF obj))))                      [C06]
+//@   ensures (=> (escV obj) (not (isErr err)))                                                [C06]
+//@   ensures (=> (escV obj) (and ((_ is VMap) res) (forall ((j String)) (= (select (mc res) j)  [C06]
+//@              (ite (or (= (select (mc obj) j) VAbsent) (= (dropF (select (mc obj) j)) VNil)) VAbsent (dropF (select (mc obj) j)))))))
+//@   ensures (=> (escV obj) (= res (dropF obj)))                                              [C06] [follows]
 //@   decreases (rank obj) 0
 //@   call filterMap#1
 //@     invariant ((_ is VMap) ret)
@@ -521,10 +524,10 @@ package bkl
 
 //@ func getPath(obj, parts) (res, err)
 //@   borrowed
-//@   ensures (= (isErr err) (lookErr obj parts))                                                             [C10]
+//@   ensures (= (isErr err) (lookErr obj (sitems parts)))                                                             [C10]
 //@   ensures (=> (isErr err) (= err ErrRefNotFound))                                                         [C10]
-//@   ensures (=> (not (isErr err)) (= res (lookupF obj parts)))                                              [C10]
-//@   decreases (sllen parts)
+//@   ensures (=> (not (isErr err)) (= res (lookupF obj (sitems parts))))                                              [C10]
+//@   decreases (sllen (sitems parts))
 
 //@ func getCross(docs, conf) (res, err)
 //@   borrowed
@@ -715,7 +718,7 @@ package bkl
 
 //@ func Parser.loadFile(p, path, child) (res, err)
 //@   property C18
-//@   uses rmemApp, rdistinctSnoc
+//@   uses freshDocsSnoc
 //@   ensures (=> (not (isErr err)) (freshDocs (file.docs res) allocTop allocTop@post))                                                  [C02]
 //@   ensures (= (heap Parser.docs) (old (heap Parser.docs)))
 //@   ensures (=> (not (isErr err)) (= (file.id res) (ite (= child 0) path (str.++ (old (file.id child)) "|" path))))
@@ -765,7 +768,7 @@ package bkl
 //@     invariant (= (app (ls ret) (flat1 rest)) (flat1 (ls obj2)))
 //@   loop 2
 //@     invariant ((_ is VList) ret)
-//@     invariant (= (app (ls ret) (prefixL prefix rest)) (prefixL prefix strs))
+//@     invariant (= (app (ls ret) (prefixL prefix rest)) (prefixL prefix (sitems strs)))
 
 //@ func popListMapValue(l, k) (val, rest, err)
 //@   uses appNil, snocApp
@@ -814,10 +817,10 @@ package bkl
 //@ func toStringList(l) (res, err)
 //@   uses sappNil, ssnocApp
 //@   ensures (= (isErr err) (not (allStr (ls l))))
-//@   ensures (=> (not (isErr err)) (= res (toSL (ls l))))
+//@   ensures (=> (not (isErr err)) (= (sitems res) (toSL (ls l))))
 //@   loop 1
 //@     invariant (= (allStr rest) (allStr (ls l)))
-//@     invariant (= (sapp ret (toSL rest)) (toSL (ls l)))
+//@     invariant (= (sapp (sitems ret) (toSL rest)) (toSL (ls l)))
 
 // ------------------------------------------------------------------------------------------------- effects (C18)
 // The only places where the library opens a root handle or reads file content:
@@ -956,9 +959,9 @@ package bkl
 //@   uses sappNil, ssnocApp
 //@   ensures (= (isErr err) (not ((_ is VList) v)))                                                          [C14]
 //@   ensures (=> (isErr err) (= err ErrInvalidType))
-//@   ensures (=> (not (isErr err)) (= res (fmtvL (ls v))))                                                   [C14]
+//@   ensures (=> (not (isErr err)) (= (sitems res) (fmtvL (ls v))))                                                   [C14]
 //@   loop 1
-//@     invariant (= (sapp ret (fmtvL rest)) (fmtvL (ls v2)))
+//@     invariant (= (sapp (sitems ret) (fmtvL rest)) (fmtvL (ls v2)))
 //
 //@ func process2ToListValue(k, delim, v) (res)
 //@   ensures (= (VStr res) (tolistVal k delim v))                                                            [C14]
@@ -1010,20 +1013,20 @@ package bkl
 //
 //@ func file.parentsFromFilename(f) (res, err)
 //@   property C03
-//@   ensures (=> (isStdinF (file.path f)) (and (not (isErr err)) (= res SNil)))                                                            [C03]
+//@   ensures (=> (isStdinF (file.path f)) (and (not (isErr err)) (= res (Slice SNil))))                                                            [C03]
 //@   ensures (=> (and (not (isStdinF (file.path f))) (< (sllen (strSplit (pathBase (file.path f)) ".")) 2)) (= err ErrInvalidFilename))     [C03]
-//@   ensures (=> (and (not (isStdinF (file.path f))) (= (sllen (strSplit (pathBase (file.path f)) ".")) 2)) (and (not (isErr err)) (= res SNil)))   [C03]
+//@   ensures (=> (and (not (isStdinF (file.path f))) (= (sllen (strSplit (pathBase (file.path f)) ".")) 2)) (and (not (isErr err)) (= res (Slice SNil))))   [C03]
 //@   ensures (=> (and (not (isStdinF (file.path f))) (> (sllen (strSplit (pathBase (file.path f)) ".")) 2))                                [C03]
 //@              (ite (= (findFileF (parentLayerPath (file.path f))) "")
 //@                   (= err ErrMissingFile)
-//@                   (and (not (isErr err)) (= res (SCons (findFileF (parentLayerPath (file.path f))) SNil)))))
+//@                   (and (not (isErr err)) (= res (Slice (SCons (findFileF (parentLayerPath (file.path f))) SNil))))))
 //
 //@ func globFiles(path) (res, err)
 //@   property C03
 //@   uses allDotsApp, sappNil, ssnocApp
-//@   ensures (=> (not (isErr err)) (allDots res (strCount (str.++ path ".*") ".")))                                                        [C03]
+//@   ensures (=> (not (isErr err)) (allDots (sitems res) (strCount (str.++ path ".*") ".")))                                                        [C03]
 //@   loop 1
-//@     invariant (allDots ret patDots)
+//@     invariant (allDots (sitems ret) patDots)
 //
 //@ func file.toAbsolutePaths(f, paths) (res, err)
 //@   property C03
